@@ -596,6 +596,20 @@ func augName(c *Ctx, a *flAgg) {
 				noArgs = true
 			}
 		}
+		// getFuncAST may find no declaration and report no error (a line behind
+		// the last node of the file): the declaration is used only if there is one
+		declNonNil := false
+		for _, lt := range p.Lits {
+			at := lt.Atom
+			if !lt.Pol && at.Op == OpBin && at.Tok == token.EQL && len(at.Args) == 2 && at.Args[1].isNilConst() && strings.Contains(at.Args[0].String(), "getFuncAST(") && strings.HasSuffix(at.Args[0].String(), "#0") {
+				declNonNil = true
+			}
+		}
+		if !declNonNil {
+			a.bad("AUG-name", "augmentGoroutine/decl-non-nil", "the declaration returned by getFuncAST is used (its name read, the frame augmented) without testing that there is one: getFuncAST returns (nil, nil) for a line behind the last syntax node, and the dereference panics", pos)
+		} else {
+			a.ok("AUG-name", "augmentGoroutine/decl-non-nil", "the declaration is used only where getFuncAST returned one", pos)
+		}
 		switch {
 		case !guarded:
 			a.bad("AUG-name", "augmentGoroutine/name-guard", "augmentCall is applied without checking that the declaration found by line number is the function of the frame: with shifted sources a frame is decoded with the signature of an unrelated function", pos)
